@@ -145,7 +145,7 @@ Definition macro_def_start (s : st) : st :=
                         | Some f => let '(fs, s') := formats_of f s1 in let s'' := check_formats fs s' in (not_export_format fs s'', s'')
                         | None => (false, s1) end in
       let '(name, s3) := inlines_text n s2 in
-      s3 <| udef := Some (mkUm (line s3) name ign 0 [] [] false) |>
+      s3 <| udef := Some (mkUm (line s3) name ign 0 [] [] false (cfile s3)) |>
     end
   end.
 
@@ -175,7 +175,7 @@ Definition macro_def_end (s : st) : st :=
   | Some d =>
     if um_ignore d then s1 <| udef := None |> else
     let '(mx, lst, opts, s2) := search_args (um_blocks d) s1 in
-    let d1 := mkUm (um_line d) (um_name d) false mx opts (um_blocks d) lst in
+    let d1 := mkUm (um_line d) (um_name d) false mx opts (um_blocks d) lst (um_file d) in
     s2 <| umacros ::= assoc_set (um_name d) d1 |> <| udef := None |>
   end.
 
@@ -261,163 +261,3 @@ Definition subst_block (argsc : nat) (a : list arg) (opts : list (str * arg)) (f
   | BText t l => let '(y, s1) := subst_text argsc a opts flags t s in (BText y l, s1)
   end.
 
-(* ---- the block loop (process.go), processInlineMacros, user macros: one recursion on fuel ---- *)
-Definition is_name (n : str) (m : string) : bool := str_eqb n (runes m).
-
-Fixpoint process_blocks (fuel : nat) (bs : list block) (s : st) : st :=
-  match fuel with O => s <| panicked := Some (R "out of fuel") |> | S f =>
-  let pim : PIM := fun (a : list arg) (s : st) =>
-    (* processInlineMacros *)
-    let blocks :=
-      fold_left (fun bl (x : arg) =>
-        match x with
-        | [] => bl
-        | [IText t] => if is_name t "Bm" || is_name t "Em" || is_name t "Sm" then bl ++ [BMacro t [] (line s)]
-                       else match rev bl with
-                            | [] => [BText x (line s)]
-                            | BMacro n ar l :: r => rev r ++ [BMacro n (ar ++ [x]) l]
-                            | BText t0 l :: r => rev r ++ [BText (match t0 with [] => x | _ => t0 ++ [IText [32]] ++ x end) l]
-                            end
-        | _ => match rev bl with
-               | [] => [BText x (line s)]
-               | BMacro n ar l :: r => rev r ++ [BMacro n (ar ++ [x]) l]
-               | BText t0 l :: r => rev r ++ [BText (match t0 with [] => x | _ => t0 ++ [IText [32]] ++ x end) l]
-               end
-        end) a [] in
-    let blocks := match blocks with [] => [BText [] (line s)] | _ => blocks end in
-    let s1 := (if negb (process s) then s <| quiet := true |> else s)
-                <| buf := [] |> <| ws := false |> <| inl := true |> <| par := true |> <| process := true |> <| has_cur := true |> in
-    let s2 := process_blocks f blocks s1 in
-    let s3 := if negb (par s) then close_unclosed_inline s2 else s2 in
-    (buf s3, s3 <| buf := buf s |> <| macro := macro s |> <| args := args s |> <| ws := ws s |> <| inl := false |>
-                <| par := par s |> <| process := process s |> <| quiet := false |> <| has_cur := has_cur s |> <| line := line s3 |>) in
-  match bs with
-  | [] => s
-  | b :: rest =>
-    let s0 := match b with
-              | BMacro n a l => s <| args := a |> <| macro := n |> <| line := l |> <| has_cur := true |>
-              | BText t l => s <| text := t |> <| line := l |> <| has_cur := true |>
-              end in
-    let s1 :=
-      if Nat.ltb 0 (ifdepth s0) then
-        match b with
-        | BMacro n _ _ => if is_name n "#;" then macro_if_end s0 else if is_name n "#if" then macro_if_start s0 else s0
-        | _ => s0
-        end
-      else match udef s0 with
-      | Some d =>
-        match b with
-        | BMacro n _ _ =>
-            if is_name n "#." then macro_def_end s0
-            else if is_name n "#de" then macro_def_start s0
-            else if um_ignore d then s0 else s0 <| udef := Some (mkUm (um_line d) (um_name d) (um_ignore d) 0 [] (um_blocks d ++ [b]) false) |>
-        | BText _ _ => if um_ignore d then s0 else s0 <| udef := Some (mkUm (um_line d) (um_name d) (um_ignore d) 0 [] (um_blocks d ++ [b]) false) |>
-        end
-      | None =>
-        match b with
-        | BText _ _ => (process_text s0) <| prev := [] |>
-        | BMacro n a l =>
-          match assoc n (umacros s0) with
-          | Some m =>
-            (* processUserMacro *)
-            if Nat.ltb 42 (cdepth s0) then (if process s0 then err "recursive macro: too much depth" s0 else s0) else
-            let sq := if negb (process s0) then s0 <| quiet := true |> else s0 in
-            let '(o, sa) := parse_opts (um_opts m) (args sq) sq in
-            let sb := if negb (process sa) then sa <| quiet := false |> else sa in
-            let sc := if negb (um_list m) && Nat.ltb (um_argsc m) (List.length (po_args o)) && process sb then err "too many arguments" sb else sb in
-            let '(blocks, sd) :=
-              if Nat.ltb 0 (um_argsc m) || um_list m || negb (Nat.eqb (List.length (um_opts m)) 0) then
-                fold_left (fun '(acc, s) b0 => let '(b1, s') := subst_block (um_argsc m) (po_args o) (po_opts o) (po_flags o) b0 s in (acc ++ [b1], s'))
-                          (um_blocks m) ([], sc)
-              else (um_blocks m, sc) in
-            let se := if Nat.eqb (cdepth sd) 0 then sd <| cloc := Some (l, n) |> else sd in
-            let sf := process_blocks f blocks (se <| cdepth ::= S |> <| has_cur := true |>) in
-            let sg := sf <| cdepth ::= Nat.pred |> <| has_cur := has_cur s0 |> in
-            if Nat.eqb (cdepth sg) 0 then sg <| cloc := None |> else sg
-          | None =>
-            let handler : option (st -> st) :=
-              if is_name n "Bd" then Some macro_bd else if is_name n "Bf" then Some macro_bf
-              else if is_name n "Bl" then Some (macro_bl pim) else if is_name n "Bm" then Some macro_bm
-              else if is_name n "Ch" || is_name n "Pt" || is_name n "Sh" || is_name n "Ss" then Some (macro_header pim)
-              else if is_name n "D" then Some macro_d else if is_name n "Ed" then Some macro_ed
-              else if is_name n "Ef" then Some macro_ef else if is_name n "El" then Some macro_el
-              else if is_name n "Em" then Some macro_em else if is_name n "Ft" then Some macro_ft
-              else if is_name n "Im" then Some macro_im else if is_name n "It" then Some (macro_it pim)
-              else if is_name n "Lk" then Some (macro_lk pim) else if is_name n "P" then Some (macro_p pim)
-              else if is_name n "Sm" then Some macro_sm else if is_name n "Sx" then Some (macro_sx pim)
-              else if is_name n "Ta" then Some (macro_ta pim) else if is_name n "Tc" then Some macro_tc
-              else if is_name n "X" then Some macro_x
-              else if is_name n "#de" then Some macro_def_start else if is_name n "#." then Some macro_def_end
-              else if is_name n "#if" then Some macro_if_start else if is_name n "#;" then Some macro_if_end
-              else if is_name n "#dv" then Some macro_def_var
-              else None in
-            match handler with
-            | Some h =>
-              let sx := match bf s0 with
-                        | Some _ => if is_name n "Ef" || is_name n "#if" || is_name n "#;" then s0 else err "found macro while Bf isn't closed" s0
-                        | None => s0 end in
-              (h sx) <| prev := n |>
-            | None => match n with [] => s0 | _ => if process s0 then err "unknown macro" s0 else s0 end
-            end
-          end
-        end
-      end in
-    match panicked s1 with Some _ => s1 | None => process_blocks f rest s1 end
-  end end.
-
-(* ---- ProcessFrundisSource for xhtml -a (fragment): two passes over the same blocks, then the end-of-file sweep ---- *)
-Definition init_st : st :=
-  mkSt [] [] [] 0 [] false false false false false false false [] [] [] None [] [] []
-       (mkToc false false 0 0 0 0 0 0 0 0 0) [] [] [] [] [] [] []
-       0 0 0 0 [] [] false false [] 0 false 0 [] []
-       [(R "xhtml-index", R "full"); (R "lang", R "en")] [] []
-       0 None [] [] 0 None false (R "xhtml") [] false false 0%Z [] 0 [] [] [] [] None.
-
-Definition reset (s : st) : st :=
-  init_st <| format := format s |> <| existing := existing s |> <| mode := mode s |> <| dtags := dtags s |> <| ids := ids s |> <| images := images s |> <| mtags := mtags s |> <| params := params s |>
-          <| lox_toc := lox_toc s |> <| lox_nav := lox_nav s |> <| lox_lof := lox_lof s |> <| lox_lot := lox_lot s |> <| lox_lop := lox_lop s |>
-          <| toc := reset_counters (toc s) |> <| tinfo := tinfo s |> <| diags := diags s |> <| process := true |>.
-
-(* exporter Reset (after the context reset) and PostProcessing, for XHTML standalone / multi-file *)
-Definition exp_reset (s : st) : st :=
-  match fmt s, mode s with
-  | FX, 1%nat => X.title_page (wo (X.doc_header (X.param "document-title" s) s) s)
-  | FX, 2%nat =>
-      let s1 := X.title_page (wo (X.doc_header (X.param "document-title" s) s) (s <| curfile := R "index.html" |>)) in
-      let idx := X.param "xhtml-index" s1 in
-      if str_eqb idx (R "full") then X.write_toc (mkPo [] [] []) s1
-      else if str_eqb idx (R "summary") then X.write_toc (mkPo [] [R "summary"] []) s1 else s1
-  | FX, 3%nat =>
-      let s1 := X.epub_gen s in
-      X.title_page (wo (X.doc_header (X.param "document-title" s1) s1) (s1 <| curfile := R "EPUB/index.xhtml" |>))
-  | _, _ => s
-  end.
-Definition exp_post (s : st) : st :=
-  match fmt s, mode s with
-  | FX, 1%nat => wo X.doc_footer s
-  | FX, 2%nat => wo X.doc_footer (match navtext s with [] => s | n => wo n s end)
-  | FX, 3%nat => wo X.doc_footer s
-  | _, _ => s
-  end.
-
-Definition compile (fuel : nat) (fmtname : str) (md : nat) (ex : list str) (bs : list block) : st :=
-  let s1 := process_blocks fuel bs (init_st <| format := fmtname |> <| mode := md |> <| existing := ex |>
-              <| params := (if str_eqb fmtname (R "xhtml") || str_eqb fmtname (R "epub") then [(R "xhtml-index", R "full"); (R "lang", R "en")] else [(R "lang", R "en")]) |>) in
-  match panicked s1 with Some _ => s1 | None =>
-  let s2 := process_blocks fuel bs (exp_reset (reset s1)) in
-  match panicked s2 with Some _ => s2 | None =>
-  let s3 := s2 <| has_cur := false |> <| macro := R "End Of File" |> in
-  let s4 := close_unclosed_block (end_par PNormal (close_unclosed_inline s3)) in
-  let s5 := match top (sif s4) with Some sc => warn_unclosed sc s4 | None => s4 end in
-  let s6 := match bf s5 with Some _ => err "found End Of File while Bf isn't closed" s5 | None => s5 end in
-  let s7 := match udef s6 with Some _ => err "found End Of File while #de isn't closed" s6 | None => s6 end in
-  let s8 := exp_post s7 in
-  s8 <| files ::= fun l => l ++ [(curfile s8, wout s8)] |>
-  end end.
-
-Definition compile_source (fmtname : str) (md : nat) (ex : list str) (src : str) : st :=
-  let '(bs, e) := parse src in
-  match e with
-  | Some _ => init_st <| panicked := Some (R "parse error") |>
-  | None => compile (40 * List.length bs + 2000)%nat fmtname md ex bs
-  end.
